@@ -246,6 +246,18 @@ theorem transmitting_coroutines :
        ("driver/async_udp_protocol.py:GeckoAsyncUdpProtocol.get", true),
        ("driver/protocol/statusblock.py:GeckoAsyncPartialStatusBlockProtocolHandler.async_handle", false)] := by decide +kernel
 
+/-- **a request's clock is its own**: over the regenerated skeletons of the bookkeeping every handler inherits, `age` reads only the
+monotonic clock, `_reset_timeout` writes only the handler's start time, `handled` / `async_handled` restart that clock and call the
+handler's own callback, `retry` spends the handler's own budget - nothing another handler or another datagram does can keep an
+unanswered attempt alive (the timeout that `holder_time_bounded` counts on) -/
+theorem request_clock_is_the_handlers_own :
+    [sk_driver_udp_protocol_handler__GeckoUdpProtocolHandler_age, sk_driver_udp_protocol_handler__GeckoUdpProtocolHandler_has_timedout,
+     sk_driver_udp_protocol_handler__GeckoUdpProtocolHandler__reset_timeout, sk_driver_udp_protocol_handler__GeckoUdpProtocolHandler_handled,
+     sk_driver_udp_protocol_handler__GeckoUdpProtocolHandler_async_handled, sk_driver_udp_protocol_handler__GeckoUdpProtocolHandler_retry].map
+      (fun sk => (selfStateWritten sk, actions .call sk)) =
+    [([], ["time.monotonic"]), ([], []), (["self._start_time"], ["time.monotonic"]), ([], ["self._reset_timeout", "self._on_handled"]),
+     ([], ["self._reset_timeout"]), (["self._retry_count"], ["self._reset_timeout", "queue_send"])] := by decide +kernel
+
 end LockShape
 
 end GeckoModel.C06
